@@ -37,6 +37,14 @@ CLAIMED = {
         "v0.1 windows are slices; stream = bytes for every version. Partial: the v0.0 decoder is modelled and compared with the implementation on reference-encoded files, but no reference-decode theorem is proved for it.",
    technique="Lean 4 proof (v0.1 codec, version dispatch) + differential correspondence on reference-encoded v0.0/v0.1 files",
    design="§5 C04"),
+ "C06": dict(
+   text="Theorems (Props/C06.lean) over an explicit object store (header memo with its own object, objects handed to callers, calls read / in-place mutate through any held reference / copy / clear): "
+        "after ANY history a read hands out a fresh object holding exactly the decode of its own bytes, or raises exactly when they do not decode (read_pure, by the invariant 'the memo's object is private and holds the decode of its key' "
+        "and prefix determinism of the header decoder, itself a theorem of the codec model); results are pairwise distinct objects and none is the memo's (results_disjoint); an edit changes no other object (mutation_local); "
+        "the whole pose is the same with an empty cache and with any entry an earlier read stored (pose_independent_of_cache, both directions). The store machine is compared with the implementation on generated histories "
+        "(values after every call, final headers), and aliasing is checked on the implementation with id()/np.shares_memory.",
+   technique="Lean 4 proof (invariant by induction over operation histories on an explicit store) + differential correspondence on histories + aliasing oracle",
+   design="§5 C06"),
  "C07": dict(
    text="Theorems (Props/C07.lean): no proper prefix of a written file is accepted by a full read (truncated_rejected, from extension/consumption of blind skip-free reader programs), "
         "appended bytes do not change the result (trailing_ignored). The windowed-stream clause (raises or equals the intact file's window) is covered by the correspondence and the oracle on the "
